@@ -563,6 +563,11 @@ class Tr:
             if self.d != "nat":
                 raise Unsupported("saturating_sub on UInt64")
             return f"({a} - {self.expr(args[0])})"
+        # AtomicInstant: the new content of the cell as a function of the old one (`a`)
+        if name == "set_instant" and self.d == "nat":
+            return self.expr(args[0])
+        if name == "advance_to" and self.d == "nat":
+            return f"(max {a} {self.expr(args[0])})"
         if name == "saturating_add":
             if self.d != "nat":
                 raise Unsupported("saturating_add on UInt64")
@@ -958,6 +963,15 @@ SITES = [
      r"counters\.saturating_sub\([^,;]+, (?P<e>[^;]+)\);"),
     ("Counters", "sync_lru_acc", "sync/base_cache.rs", "evict_lru_entries", 0, "expr",
      [("evicted", N), ("weight", N)], N, "nat", [], r"(?<!mut )evicted = (?P<e>[^;]+);"),
+    # what a store into a shared timestamp cell leaves there (model T, model V)
+    ("Stamps", "entry_set_last_modified", "common/concurrent/entry_info.rs", "set_last_modified", 0, "expr",
+     [("old", N), ("timestamp", N)], N, "nat", [("self.last_modified", "old")], r"\{ (?P<e>[^;{}]+); \}"),
+    ("Stamps", "entry_set_last_accessed", "common/concurrent/entry_info.rs", "set_last_accessed", 0, "expr",
+     [("old", N), ("timestamp", N)], N, "nat", [("self.last_accessed", "old")], r"\{ (?P<e>[^;{}]+); \}"),
+    ("Stamps", "valid_after_store", "sync/base_cache.rs", "set_valid_after", 0, "expr",
+     [("old", N), ("timestamp", N)], N, "nat", [("self.valid_after", "old")], r"(?P<e>old\.[^;]+);"),
+    ("Stamps", "advance_to_moves", "common/concurrent/atomic_time.rs", "advance_to", 0, "expr",
+     [("current", O), ("instant", N)], B, "nat", [], r"if (?P<e>[^{]+?) \{ \*current"),
     # when expiry machinery is enabled at all
     ("Enable", "unsync_has_expiry", "unsync/cache.rs", "has_expiry", 0, "fn",
      [("ttl", O), ("tti", O)], B, "nat", [("self.time_to_live", "ttl"), ("self.time_to_idle", "tti")]),
